@@ -86,6 +86,9 @@ pub enum Negotiation {
 }
 
 pub struct ProtoWorld {
+    /// start-up configuration given to HandlerBuilder at every (re)start
+    pub startup_allowlist: Vec<String>,
+    pub decline_unknown: bool,
     pub version: u32,
     pub negotiation: Negotiation,
     pub cfg: WorldCfg,
@@ -139,13 +142,16 @@ fn build_root(
     store: &Arc<MemPersister>,
     version: u32,
     negotiation: Negotiation,
+    startup_allowlist: &[String],
+    decline_unknown: bool,
 ) -> Result<RootHandler, Status> {
     let signer_max = match negotiation {
         Negotiation::SignerCap => version,
         Negotiation::NodeCap | Negotiation::Init2 => msgs::DEFAULT_MAX_PROTOCOL_VERSION,
     };
     let mut init = HandlerBuilder::new(cfg.network, 0, services(vfactory, clock, store, &cfg.trusted_oracles), cfg.seed)
-        .approver(Arc::new(PositiveApprover()))
+        .approver(if decline_unknown { Arc::new(vls_protocol_signer::approver::NegativeApprover()) as Arc<dyn vls_protocol_signer::approver::Approve> } else { Arc::new(PositiveApprover()) })
+        .allowlist(startup_allowlist.to_vec())
         .max_protocol_version(signer_max)
         .build()
         .map_err(|e| match e {
@@ -194,12 +200,21 @@ fn build_root(
 
 impl ProtoWorld {
     pub fn new(cfg: WorldCfg, version: u32, negotiation: Negotiation) -> ProtoWorld {
+        Self::new_configured(cfg, version, negotiation, vec![], false)
+    }
+
+    /// As `new`, with the start-up configuration vlsd passes to `HandlerBuilder`: the initial
+    /// allowlist ("only used if node is new") and whether unknown destinations are declined
+    /// (NegativeApprover) or approved (PositiveApprover).  A restart uses the same configuration.
+    pub fn new_configured(cfg: WorldCfg, version: u32, negotiation: Negotiation, startup_allowlist: Vec<String>, decline_unknown: bool) -> ProtoWorld {
         assert!(VERSIONS.contains(&version));
         let vfactory: Arc<dyn ValidatorFactory> = Arc::new(SimpleValidatorFactory::new_with_policy(cfg.policy.clone()));
         let store: Arc<MemPersister> = Arc::new(KVVPersister(MemoryKVVStore::new(SIGNER_ID), JsonFormat));
         let clock = Arc::new(ManualClock::new(Duration::from_secs(cfg.now_secs)));
-        let root = build_root(&cfg, &vfactory, &clock, &store, version, negotiation).expect("new signer");
+        let root = build_root(&cfg, &vfactory, &clock, &store, version, negotiation, &startup_allowlist, decline_unknown).expect("new signer");
         let mut w = ProtoWorld {
+            startup_allowlist,
+            decline_unknown,
             version,
             negotiation,
             cfg,
@@ -398,11 +413,12 @@ impl ProtoWorld {
     pub fn restart(&mut self) -> Out<()> {
         let dump = self.store_dump();
         let (cfg, vf, clock, version, negotiation) = (self.cfg.clone(), self.vfactory.clone(), self.clock.clone(), self.version, self.negotiation);
+        let (sal, decl) = (self.startup_allowlist.clone(), self.decline_unknown);
         let r = call(move || {
             let ms = MemoryKVVStore::new(SIGNER_ID);
             ms.put_batch(dump.into_iter().map(|(k, v, val)| KVV(k, (v, val))).collect()).expect("copy store");
             let store: Arc<MemPersister> = Arc::new(KVVPersister(ms, JsonFormat));
-            let root = build_root(&cfg, &vf, &clock, &store, version, negotiation)?;
+            let root = build_root(&cfg, &vf, &clock, &store, version, negotiation, &sal, decl)?;
             Ok((root, store))
         });
         match r {
